@@ -287,6 +287,12 @@ def cancel(rng):
     g.emit("adv 711000000")
     g.emit("pull %s 1000 1" % hx(s))
     g.emit("pull %s 1000 1" % hx(s_new))
+    # whatever was abandoned, everything that exists can still be deleted (and is then gone)
+    g.emit("dsub " + hx(s_new))
+    g.emit("dsub " + hx(s))
+    g.emit("gsub " + hx(s_new))
+    g.emit("gsub " + hx(s))
+    g.emit("wtsubs %s 1000" % hx(t))
     return g.lines
 
 
@@ -373,9 +379,11 @@ def namerace(rng):
     t2 = tname("p", "t1")
     s = sname("p", "s0")
     g.emit("ctopic " + hx(t))
-    if rng.chance(1, 2):
+    # a quarter of the cases: CreateSubscription racing DeleteTopic / CreateTopic of its own topic
+    topicrace = rng.chance(1, 4)
+    if topicrace or rng.chance(1, 2):
         g.emit("ctopic " + hx(t2))
-    exists = rng.chance(3, 4)
+    exists = rng.chance(3, 4) and not topicrace
     if exists:
         g.emit("csub %s %s 10 -" % (hx(s), hx(t)))
     g.topics = [t]
@@ -386,7 +394,10 @@ def namerace(rng):
             y = rng.range(0, 8)
             if y:
                 g.emit("yield %d" % y)
-            op = rng.weighted([("dsub", 4), ("csub", 5), ("gsub", 2), ("csub2", 1), ("pub", 1), ("dtopic", 1), ("ctopic", 1)])
+            if topicrace:
+                op = rng.weighted([("csub2", 6), ("dtopic", 5), ("ctopic", 2), ("gsub", 2), ("dsub", 2)])
+            else:
+                op = rng.weighted([("dsub", 4), ("csub", 5), ("gsub", 2), ("csub2", 1), ("pub", 1), ("dtopic", 1), ("ctopic", 1)])
             if op == "dsub":
                 g.emit("dsub " + hx(s))
             elif op == "csub":
